@@ -58,11 +58,22 @@ void ares_destroy(ares_channel_t *channel)
   }
 
   /* Wait for reinit thread to exit if there was one pending, can't be
-   * holding a lock as the thread may take locks. */
-  if (channel->reinit_thread != NULL) {
-    void *rv;
-    ares_thread_join(channel->reinit_thread, &rv);
+   * holding a lock while joining as the thread may take locks.  The handle
+   * itself is taken under the lock: sys_up is already false so no new reload
+   * can start, and one that did start (e.g. from the configuration watcher
+   * just before it was stopped) stored its handle under the lock too. */
+  {
+    ares_thread_t *reinit_thread;
+
+    ares_channel_lock(channel);
+    reinit_thread          = channel->reinit_thread;
     channel->reinit_thread = NULL;
+    ares_channel_unlock(channel);
+
+    if (reinit_thread != NULL) {
+      void *rv;
+      ares_thread_join(reinit_thread, &rv);
+    }
   }
 
   /* Lock because callbacks will be triggered, and any system-generated
